@@ -30,7 +30,7 @@ inductive Line
   | assign (name : String) (value : String)         -- varAssignmentString (quote heuristic in render)
   | assignArith (name l op r : String)              -- `name="$((l op r))"`
   | assignTest (name : String) (t : Test) (a b : String)   -- `name="$(if t; then echo a; else echo b; fi)"`
-  | localAssign (name : String) (value : String)    -- `local name="$i"`
+  | localAssign (name : String) (idx : Nat)         -- `local name="$idx"` (positional parameter of the function)
   | sah (arr index value dflt : String)             -- `_sah ${arr} idx "v" "d"`
   | funcStart (name : String)
   | funcEnd
@@ -67,7 +67,7 @@ def Line.render : Line → String
   | .assign n v => s!"{n}=\"{v}\""
   | .assignArith n l op r => s!"{n}=\"$(({l}{op}{r}))\""
   | .assignTest n t a b => s!"{n}=\"$(if {t.render}; then echo {a}; else echo {b}; fi)\""
-  | .localAssign n v => s!"local {n}=\"{v}\""
+  | .localAssign n i => s!"local {n}=\"${i}\""
   | .sah a i v d => s!"_sah {a} {i} \"{v}\" \"{d}\""
   | .funcStart n => s!"{n}() \{"
   | .funcEnd => "}"
@@ -346,7 +346,7 @@ def localParams : List String → Nat → BM Unit
   | [], _ => pure ()
   | p :: rest, i => do
       let s ← get
-      addLine (.localAssign (varName s p false) s!"${i + 1}")
+      addLine (.localAssign (varName s p false) (i + 1))
       localParams rest (i + 1)
 
 /-- copies of the return registers after a call: `h_i="${_rv<i>}"` -/
